@@ -398,7 +398,7 @@ class Daemon:
             return Err("exception-" + type(e).__name__)
 
     def transfer_slow(self, env, via_file, dumpfile):
-        return self.transfer(env, via_file, dumpfile, secs=300)
+        return self.transfer(env, via_file, dumpfile, secs=150)
 
     def transfer(self, env, via_file, dumpfile, secs=90):
         """inside a session: send_env; dump; alive; unset.  Returns state | Err(what)."""
@@ -489,7 +489,7 @@ def main(chk: Check):
     for f in sorted((VERIF / "corpus" / "C31").glob("*.json")):
         d = json.loads(f.read_text())
         envs.append(({k: (v if isinstance(v, str) else list(v)) for k, v in d["env"].items()}, d.get("ro", [])))
-    n_valid, n_bad = chk.n(260, 2400), chk.n(60, 400)
+    n_valid, n_bad = chk.n(200, 2400), chk.n(50, 400)
     for _ in range(n_valid):
         envs.append(gen_env(rng))
     bad = [gen_bad_env(rng) for _ in range(n_bad)]
@@ -516,7 +516,7 @@ def main(chk: Check):
     frame_cases, frame_meta = [], []
     xdir = chk.scratch / "framefile"
     xdir.mkdir(exist_ok=True)
-    for env, ro, res in gen_meta[: chk.n(70, 500)]:
+    for env, ro, res in gen_meta[: chk.n(50, 500)]:
         if isinstance(res, Err):
             continue
 
@@ -551,8 +551,8 @@ def main(chk: Check):
             continue
         bash_in.append(([k for k in env if k != MARKER and in_domain({k: ""})], res,
                         "impl" if in_domain(env) else "impl-offdomain"))
-    bash_in = bash_in[: chk.n(160, 1800)]
-    for _ in range(chk.n(200, 1800)):
+    bash_in = bash_in[: chk.n(130, 1800)]
+    for _ in range(chk.n(160, 1800)):
         names, text = gen_fragment_text(rng)
         bash_in.append((names, text, "hand"))
     for t in MALFORMED:
@@ -653,10 +653,10 @@ def main(chk: Check):
         import concurrent.futures as cf
         jobs = {
             "gen": ("gen_input", gen_cases,
-                    ["mismatches run_gen cases", "where_ (fun i r => negb (spec_gen_ok i r)) cases"], 200),
+                    ["mismatches run_gen cases", "where_ (fun i r => negb (spec_gen_ok i r)) cases"], 130),
             "frame": ("str * str", frame_cases,
-                      ["mismatches run_frame2 cases", "where_ (fun i r => negb (spec_frame_val i r)) cases"], 120),
-            "bash": ("list str * str", bash_cases, ["where_ bash_differs cases", "where_ bash_outside cases"], 200),
+                      ["mismatches run_frame2 cases", "where_ (fun i r => negb (spec_frame_val i r)) cases"], 60),
+            "bash": ("list str * str", bash_cases, ["where_ bash_differs cases", "where_ bash_outside cases"], 120),
         }
         if e2e_cases:
             jobs["e2e"] = ("gen_input", e2e_cases,
@@ -689,7 +689,7 @@ def main(chk: Check):
             small = shrink_env(b["env"], dro, P, chk)
             if small is not b["env"]:
                 b = {"env": small, "via_file": b["via_file"], "shrunk_from_keys": sorted(b["env"]),
-                     "expected": expected_state(small, dro)}
+                     "daemon_state_for_all_keys": b["daemon_state"], "expected": expected_state(small, dro)}
         chk.violation("property", {"what": "the daemon's variables after send_env are not the environment sent "
                                            "(or the channel lost synchronisation)", "input": b})
     for i in spec_bad["gen"][:3]:
